@@ -16,6 +16,15 @@
 //! kind 3: `3 n`: n tasks wait in `accepted_0rtt()` on clones of a 0.5-RTT
 //!   server connection while the handshake completes.
 //!
+//! kind 4: `4 len stop_after`: the reader stops a uni stream after `stop_after` bytes.
+//! kind 5: `5 n dlen sendbuf`: datagrams through a small datagram send buffer.
+//! kind 6: `6 len hdr mode wchunk pre_cap delay`: the first `hdr` bytes of a stream are
+//!   consumed with read (mode 0) / read_chunk (mode 1), the rest with read_to_end.
+//! kind 7: `7 bidi max rounds written observe len2`: `rounds` streams are written to
+//!   (not finished), stopped by the peer and then DROPPED without reset()/finish();
+//!   with `max` concurrent streams allowed the following open_*_wait must succeed
+//!   and a last stream must carry `len2` bytes.
+//!
 //! Every result ends with the compio_quic::verif log (waker-table snapshots).
 use std::{
     cell::{Cell, RefCell},
@@ -147,7 +156,7 @@ struct StreamOut {
 }
 
 fn push_log(res: &mut Vec<u64>, log: &[verif::Event]) {
-    const CAP: usize = 4000;
+    const CAP: usize = 6000;
     res.push(log.len() as u64);
     let n = log.len().min(CAP);
     res.push(n as u64);
@@ -197,7 +206,7 @@ fn run_data(c: &mut Case) -> Result<Vec<u64>, BadCase> {
     let verdict = rt.block_on(async {
         let lens = lens.clone();
         let (outs, dgrams, flags) = (outs.clone(), dgrams.clone(), flags.clone());
-        let r = timeout(Duration::from_secs(8), async move {
+        let r = timeout(Duration::from_secs(15), async move {
             let Some(p) = establish(t).await else { return 1u64 };
             flags.set(flags.get() | 1);
             let Pair { server, client, sconn, cconn } = p;
@@ -405,13 +414,19 @@ fn run_close(c: &mut Case) -> Result<Vec<u64>, BadCase> {
     let mut t = TransportConfig::default();
     t.stream_receive_window(VarInt::from_u32(1000))
         .max_concurrent_uni_streams(VarInt::from_u32(1))
-        .max_concurrent_bidi_streams(VarInt::from_u32(4));
+        .max_concurrent_bidi_streams(VarInt::from_u32(4))
+        .datagram_send_buffer_size(1200);
     let slots: Rc<RefCell<Vec<(u64, Slot)>>> = Rc::new(RefCell::new(Vec::new()));
+    // the hook log is read while the scenario runs: what was taken so far
+    let acc: Rc<RefCell<Vec<verif::Event>>> = Rc::new(RefCell::new(Vec::new()));
+    let parked_at_close = Rc::new(Cell::new(0u64));
     let rt = compio_runtime::Runtime::new().unwrap();
     verif::start();
     let sl = slots.clone();
+    let (acc2, pk2) = (acc.clone(), parked_at_close.clone());
     let verdict = rt.block_on(async move {
-        let r = timeout(Duration::from_secs(8), async move {
+        let r = timeout(Duration::from_secs(15), async move {
+            let (acc, parked_at_close) = (acc2, pk2);
             let Some(p) = establish(t).await else { return 1u64 };
             let Pair { server, client, sconn, cconn } = p;
             use compio_quic::{ReadError, StoppedError, WriteError};
@@ -493,7 +508,14 @@ fn run_close(c: &mut Case) -> Result<Vec<u64>, BadCase> {
             }
             {
                 let sc = sconn.clone();
-                watch(&sl, 13, async move { sc.recv_datagram().await.map(|_| ()).map_err(|_| true) });
+                watch(&sl, 13, async move {
+                    // takes whatever datagrams arrive; ends with the connection
+                    loop {
+                        sc.recv_datagram().await.map_err(|_| true)?;
+                    }
+                    #[allow(unreachable_code)]
+                    Ok(())
+                });
             }
             if kind == 3 {
                 let ep = server.clone();
@@ -507,6 +529,45 @@ fn run_close(c: &mut Case) -> Result<Vec<u64>, BadCase> {
 
             // let everything block
             sleep(Duration::from_millis(60)).await;
+            // three spawned tasks push 1000-byte datagrams through a 1200-byte send buffer:
+            // whoever does not get the free slot parks in send_datagram_wait
+            for id in 21..24u64 {
+                let cc = cconn.clone();
+                watch(&sl, id, async move {
+                    loop {
+                        cc.send_datagram_wait(Bytes::from(vec![id as u8; 1000]))
+                            .await
+                            .map_err(|e| matches!(e, compio_quic::SendDatagramError::ConnectionLost(_)))?;
+                        Yield(1).await;
+                    }
+                    #[allow(unreachable_code)]
+                    Ok(())
+                });
+            }
+            // close at a moment when the hook's latest snapshot shows senders parked in
+            // datagrams_unblocked (no await between the look and the close)
+            let mut last: std::collections::HashMap<u64, [u32; verif::NSIZES]> = Default::default();
+            let mut parked = 0;
+            for round in 0..4000 {
+                {
+                    let new = verif::take();
+                    verif::start();
+                    for e in &new {
+                        last.insert(e.conn, e.sizes);
+                    }
+                    acc.borrow_mut().extend(new);
+                }
+                parked = last.values().map(|s| s[3]).max().unwrap_or(0);
+                if parked >= 2 || (round >= 1500 && parked >= 1) {
+                    break;
+                }
+                if round % 8 == 7 {
+                    sleep(Duration::from_millis(1)).await;
+                } else {
+                    Yield(1).await;
+                }
+            }
+            parked_at_close.set(parked as u64);
             let before: Vec<u64> = sl.borrow().iter().map(|(_, s)| s.get()).collect();
             match kind {
                 0 => cconn.close(VarInt::from_u32(1), b"bye"),
@@ -515,7 +576,7 @@ fn run_close(c: &mut Case) -> Result<Vec<u64>, BadCase> {
                 _ => server.close(VarInt::from_u32(1), b"bye"),
             }
             // every pending future must complete now
-            for _ in 0..400 {
+            for _ in 0..1200 {
                 if sl.borrow().iter().all(|(_, s)| s.get() != 0) {
                     break;
                 }
@@ -534,11 +595,13 @@ fn run_close(c: &mut Case) -> Result<Vec<u64>, BadCase> {
         r.unwrap_or(3)
     });
     drop(rt);
-    let log = verif::take();
+    let mut log = acc.borrow().clone();
+    log.extend(verif::take());
     let mut res = vec![0, verdict, kind, slots.borrow().len() as u64];
     for (id, s) in slots.borrow().iter() {
         res.extend([*id, s.get()]);
     }
+    res.push(parked_at_close.get());
     push_log(&mut res, &log);
     Ok(res)
 }
@@ -733,6 +796,216 @@ fn run_dgram(c: &mut Case) -> Result<Vec<u64>, BadCase> {
     Ok(res)
 }
 
+// ---------------------------------------------------------------------------
+// kind 6: `6 len hdr mode wchunk pre_cap delay`
+// result: `0 verdict hdr_ok returned expected rest_ok log`
+
+fn run_read_to_end(c: &mut Case) -> Result<Vec<u64>, BadCase> {
+    let len = c.take()? as usize;
+    let hdr = c.take()? as usize;
+    let mode = c.take()?;
+    let wchunk = c.take()? as usize;
+    let pre_cap = c.take()? as usize;
+    let delay = c.take()?;
+    if len > 1 << 18 || hdr > len || len == 0 || mode > 1 || pre_cap > 1 << 19 || delay > 100 {
+        return Err(BadCase);
+    }
+    let mut t = TransportConfig::default();
+    t.stream_receive_window(VarInt::from_u32(20_000));
+    let out = Rc::new(Cell::new((0u64, 0u64, 0u64)));
+    let rt = compio_runtime::Runtime::new().unwrap();
+    verif::start();
+    let o = out.clone();
+    let verdict = rt.block_on(async move {
+        timeout(Duration::from_secs(15), async move {
+            let Some(Pair { server, client, sconn, cconn }) = establish(t).await else { return 1u64 };
+            let data: Vec<u8> = (0..len).map(|i| (i * 13 + i / 251 + 1) as u8).collect();
+            let expect = data.clone();
+            let cli = async {
+                let mut s = cconn.open_uni().unwrap();
+                let _ = write_chunks(&mut s, &data, wchunk).await;
+                let _ = s.finish();
+                let _ = s.stopped().await;
+            };
+            let srv = async {
+                let Ok(mut r) = sconn.accept_uni().await else { return };
+                if delay > 0 {
+                    sleep(Duration::from_millis(delay)).await;
+                }
+                // the header, with ordered reads
+                let mut head = Vec::new();
+                while head.len() < hdr {
+                    let want = hdr - head.len();
+                    if mode == 0 {
+                        match read_chunk(&mut r, want).await {
+                            Ok(b) if !b.is_empty() => head.extend_from_slice(&b),
+                            _ => break,
+                        }
+                    } else {
+                        match r.read_chunk(want, true).await {
+                            Ok(Some(ch)) => head.extend_from_slice(&ch.bytes),
+                            _ => break,
+                        }
+                    }
+                }
+                let hdr_ok = head == expect[..hdr];
+                // the rest
+                let BufResult(res, buf) = r.read_to_end(Vec::with_capacity(pre_cap)).await;
+                let n = res.unwrap_or(usize::MAX);
+                let rest_ok = n == len - hdr && buf.len() == n && buf[..] == expect[hdr..];
+                o.set((hdr_ok as u64, n as u64, rest_ok as u64));
+            };
+            futures_util::join!(cli, srv);
+            cconn.close(VarInt::from_u32(0), b"");
+            drop(sconn);
+            drop(cconn);
+            let _ = timeout(Duration::from_secs(5), async { futures_util::join!(client.shutdown(), server.shutdown()) }).await;
+            0
+        })
+        .await
+        .unwrap_or(3)
+    });
+    drop(rt);
+    let log = verif::take();
+    let (a, b, cc) = out.get();
+    let mut res = vec![0, verdict, a, b, (len - hdr) as u64, cc];
+    push_log(&mut res, &log);
+    Ok(res)
+}
+
+// ---------------------------------------------------------------------------
+// kind 7: `7 bidi max rounds written observe len2`
+// result: `0 verdict rounds_done final_got final_ok stop_seen log`
+
+fn run_drop_stopped(c: &mut Case) -> Result<Vec<u64>, BadCase> {
+    let bidi = c.take()? != 0;
+    let max = c.take()?;
+    let rounds = c.take()? as usize;
+    let written = c.take()? as usize;
+    let observe = c.take()?;
+    let len2 = c.take()? as usize;
+    if max == 0 || max > 8 || rounds > 12 || written == 0 || written > 900 || observe > 2 || len2 > 1 << 17 {
+        return Err(BadCase);
+    }
+    let mut t = TransportConfig::default();
+    t.stream_receive_window(VarInt::from_u32(1000))
+        .max_concurrent_uni_streams(VarInt::from_u32(max as u32))
+        .max_concurrent_bidi_streams(VarInt::from_u32(max as u32));
+    let out = Rc::new(Cell::new((0u64, 0u64, 0u64, 0u64)));
+    let rt = compio_runtime::Runtime::new().unwrap();
+    verif::start();
+    let o = out.clone();
+    let verdict = rt.block_on(async move {
+        timeout(Duration::from_secs(15), async move {
+            let Some(Pair { server, client, sconn, cconn }) = establish(t).await else { return 1u64 };
+            let o2 = o.clone();
+            let cli = async {
+                let mut stop_seen = 0u64;
+                for round in 0..rounds {
+                    // needs the credit of the streams dropped before
+                    let (mut s, r) = if bidi {
+                        let Ok((s, r)) = cconn.open_bi_wait().await else { return };
+                        (s, Some(r))
+                    } else {
+                        let Ok(s) = cconn.open_uni_wait().await else { return };
+                        (s, None)
+                    };
+                    let BufResult(w, _) = s.write_all(vec![round as u8 + 1; written]).await;
+                    if w.is_err() {
+                        return;
+                    }
+                    match observe {
+                        0 => {
+                            if let Ok(Some(code)) = s.stopped().await {
+                                stop_seen += (code.into_inner() == 9) as u64;
+                            }
+                        }
+                        1 => {
+                            // keep writing (soon blocked on the 1000-byte window) until the stop arrives
+                            loop {
+                                let BufResult(w, _) = s.write_all(vec![0u8; 300]).await;
+                                if w.is_err() {
+                                    stop_seen += 1;
+                                    break;
+                                }
+                            }
+                        }
+                        _ => sleep(Duration::from_millis(20)).await,
+                    }
+                    // no reset(), no finish(): the handles are just dropped
+                    drop(s);
+                    drop(r);
+                    let (_, b, cc, _) = o2.get();
+                    o2.set((round as u64 + 1, b, cc, stop_seen));
+                }
+                let data = body(3, 0, len2);
+                if bidi {
+                    let Ok((mut s, _r)) = cconn.open_bi_wait().await else { return };
+                    let _ = write_chunks(&mut s, &data, 1000).await;
+                    let _ = s.finish();
+                    let _ = s.stopped().await;
+                } else {
+                    let Ok(mut s) = cconn.open_uni_wait().await else { return };
+                    let _ = write_chunks(&mut s, &data, 1000).await;
+                    let _ = s.finish();
+                    let _ = s.stopped().await;
+                }
+            };
+            let srv = async {
+                for _ in 0..rounds {
+                    let (s, mut r) = if bidi {
+                        let Ok((s, r)) = sconn.accept_bi().await else { return };
+                        (Some(s), r)
+                    } else {
+                        let Ok(r) = sconn.accept_uni().await else { return };
+                        (None, r)
+                    };
+                    let _ = r.read_chunk(100, true).await;
+                    let _ = r.stop(VarInt::from_u32(9));
+                    drop(r);
+                    drop(s);
+                }
+                let (s, mut r) = if bidi {
+                    let Ok((s, r)) = sconn.accept_bi().await else { return };
+                    (Some(s), r)
+                } else {
+                    let Ok(r) = sconn.accept_uni().await else { return };
+                    (None, r)
+                };
+                let mut got = Vec::new();
+                let mut eof = false;
+                loop {
+                    match read_chunk(&mut r, 4096).await {
+                        Ok(b) if b.is_empty() => {
+                            eof = true;
+                            break;
+                        }
+                        Ok(b) => got.extend_from_slice(&b),
+                        Err(()) => break,
+                    }
+                }
+                drop(s);
+                let (a, _, _, d) = o.get();
+                o.set((a, got.len() as u64, (eof && got == body(3, 0, len2)) as u64, d));
+            };
+            futures_util::join!(cli, srv);
+            cconn.close(VarInt::from_u32(0), b"");
+            drop(sconn);
+            drop(cconn);
+            let _ = timeout(Duration::from_secs(5), async { futures_util::join!(client.shutdown(), server.shutdown()) }).await;
+            0
+        })
+        .await
+        .unwrap_or(3)
+    });
+    drop(rt);
+    let log = verif::take();
+    let (a, b, cc, d) = out.get();
+    let mut res = vec![0, verdict, a, b, cc, d];
+    push_log(&mut res, &log);
+    Ok(res)
+}
+
 fn run(case: &[u64]) -> Result<Vec<u64>, BadCase> {
     let mut c = Case::new(case);
     match c.take()? {
@@ -741,6 +1014,8 @@ fn run(case: &[u64]) -> Result<Vec<u64>, BadCase> {
         3 => run_0rtt_waiters(&mut c),
         4 => run_stop(&mut c),
         5 => run_dgram(&mut c),
+        6 => run_read_to_end(&mut c),
+        7 => run_drop_stopped(&mut c),
         _ => Err(BadCase),
     }
 }
